@@ -165,6 +165,35 @@ func checkC12(c *Ctx, r *Report) {
 						whySingle = "a call that can reach the transport precedes the single-suite return (discovery performed although one suite was given)"
 					}
 				}
+				// on every path that takes this return, len(list) == 1 was found to hold: no other
+				// condition (a favourite suite, a flag) lets a multi-suite list skip discovery
+				enumPaths(sel, 1, 20000, func(p CPath) {
+					if p.Last() != ssa.Instruction(ret) {
+						return
+					}
+					found := false
+					for _, rel := range p.relations() {
+						if rel.Op != token.EQL {
+							continue
+						}
+						for _, pr := range [][2]ssa.Value{{rel.X, rel.Y}, {rel.Y, rel.X}} {
+							call, isCall := p.Resolve(pr[0]).(*ssa.Call)
+							if !isCall {
+								continue
+							}
+							if b, isB := call.Call.Value.(*ssa.Builtin); !isB || b.Name() != "len" || p.Resolve(call.Call.Args[0]) != p.Resolve(ssa.Value(eff)) {
+								continue
+							}
+							if k, isK := constInt(p.Resolve(pr[1])); isK && k == 1 {
+								found = true
+							}
+						}
+					}
+					if !found {
+						okSingle = false
+						whySingle = "a list of more than one suite can reach the no-discovery return (a path to it does not establish len == 1)"
+					}
+				})
 				// guarded by len(eff)==1
 				guard := false
 				for _, ifi := range ifsOf(sel) {
@@ -571,6 +600,9 @@ func checkC12(c *Ctx, r *Report) {
 	// ---- (5) the advertised set: every algorithm combination of a record is a suite the selector
 	// can match (shared with C16) — a record listing several confidentiality or integrity
 	// algorithms must not lose any of them
+	// … and the advertisement the selector works from is the whole one: discovery reads every
+	// page, and a page that fails makes discovery fail rather than end (shared with C16/C05)
+	checkChunkLoop(c, r)
 	if parser := c.cipherSuiteParser(); parser != nil {
 		checkCipherSuiteParser(c, r, parser)
 	} else {
